@@ -198,20 +198,76 @@ def run(chk):
     chk.check(callers == {"next_audio_sample"}, "T-WRITERS/ZXMixer::pop/callers", "the queue is drained from %s" % sorted(callers))
     callers = set(short_(s.fn.path) for s in cg.callers_of(prog.fn_path("rustzx_core", "ZXMixer::process")))
     chk.check(callers == {"wait_internal"}, "T-WRITERS/ZXMixer::process/callers", "the mixer is advanced from %s" % sorted(callers))
-    # frame_pos: frame_clocks / clocks_frame clamped to 1.0
+    # frame position handed to the mixer: (frame_clocks + clk) / clocks_frame clamped to 1.0, whatever helper computes it
+    WI = names.bus("wait_internal")
+    MP = prog.fn_path("rustzx_core", "ZXMixer::process")
+    opaque = {MP, names.ctl("new_frame"), prog.fn_path("rustzx_core", "ZXScreen::<FB>::process_clocks")}
+    opaque |= set(p for p in prog.fns if p.endswith("TapeImpl>::process_clocks") and "ZXTape<" in p)
     for m in names.machine_variants():
         w3 = Walker(prog)
+        w3.opaque_paths |= opaque
+        w3.effect_hook = lambda w_, st_, path, a_, d_, wh_: EffectResult(None, havoc=False)
         st3 = cc.controller_state(w3, prog, names, m)
-        rs3 = w3.run(prog.fn(names.ctl("frame_pos")), [Ref(cc.CTL, (), False)], genv=cc.GENV, state=st3)
-        rets = [r.ret for r in rs3 if r.outcome == "return"]
-        ones = [x for x in rets if fconst(x) == 1.0]
-        divs = [x for x in rets if isinstance(x, T) and x.op == "app:fDiv"]
-        ok = len(rets) == 2 and len(ones) == 1 and len(divs) == 1
-        if ok:
-            d = divs[0]
-            frame = {"Sinclair48K": 69888.0, "Sinclair128K": 70908.0}[m]
-            ok = d.args[0].op == "app:IntToFloat" and d.args[0].args[0] is tm.sym("FC", 64) and fconst(d.args[1]) == frame
-        chk.check(ok, "T-TABLE/ZXController::frame_pos/%s" % m, "frame position is not min(frame_clocks / clocks_frame, 1.0): %s" % rets)
+        clk = tm.sym("clk", 64)
+        rs3 = w3.run(prog.fn(WI), [Ref(cc.CTL, (), True), clk], genv=cc.GENV, state=st3)
+        key = "T-TABLE/ZXController::frame_pos/%s" % m
+        if not rs3 or any(r.outcome != "return" for r in rs3):
+            chk.fail(key, "wait_internal has non-returning paths: %s" % [(r.outcome, r.detail) for r in rs3 if r.outcome != "return"][:2])
+            continue
+        frame = {"Sinclair48K": 69888.0, "Sinclair128K": 70908.0}[m]
+        now = tm.binop("add", tm.sym("FC", 64), clk)
+        poss = []
+        ok = True
+        for r in rs3:
+            ev = [e for e in r.trace if e.path == MP]
+            if len(ev) != 1:
+                ok = False
+                poss.append("%d calls" % len(ev))
+                continue
+            x = ev[0].args[1]
+            # a path taken only when an int-to-float quotient by a finite non-zero constant is NaN does not exist
+            nan = False
+            for c in r.pc:
+                if c[0] == "ne" and isinstance(c[1], T) and c[1].op == "app:fNe" and c[1].args[0] is c[1].args[1]:
+                    q = c[1].args[0]
+                    if q.op == "app:fDiv" and q.args[0].op == "app:IntToFloat" and fconst(q.args[1]) not in (None, 0.0) and fconst(q.args[1]) == fconst(q.args[1]):
+                        nan = True
+            if nan:
+                continue
+            poss.append(x)
+            if isinstance(x, T) and x.op.startswith("app:") and "min" in x.op and len(x.args) == 2 and 1.0 in [fconst(a) for a in x.args]:
+                # f64::min(val, 1.0) in one expression
+                x = [a for a in x.args if fconst(a) != 1.0][0]
+                clamp = None
+            else:
+                # the clamp is a branch: which side of `val ? 1.0` is this path on
+                clamp = None
+                for c in r.pc:
+                    if c[0] in ("eq", "ne") and isinstance(c[1], T) and c[1].op in ("app:fGt", "app:fGe", "app:fLt", "app:fLe"):
+                        a0, a1 = c[1].args
+                        truth = (c[0] == "ne")
+                        if fconst(a1) == 1.0 and fconst(a0) is None:
+                            above = truth if c[1].op in ("app:fGt", "app:fGe") else not truth
+                        elif fconst(a0) == 1.0 and fconst(a1) is None:
+                            above = truth if c[1].op in ("app:fLt", "app:fLe") else not truth
+                        else:
+                            continue
+                        clamp = above
+                if clamp is None:
+                    ok = False
+                    poss.append("no comparison with 1.0 on the path")
+                    continue
+                if clamp != (fconst(x) == 1.0):
+                    ok = False
+                    poss.append("position %s although val %s 1.0" % (tm.show(x), ">" if clamp else "<="))
+                    continue
+            if fconst(x) == 1.0:
+                continue
+            ok = ok and isinstance(x, T) and x.op == "app:fDiv" and x.args[0].op == "app:IntToFloat" and \
+                tm.equiv(x.args[0].args[0], now) is True and fconst(x.args[1]) == frame
+        forms = set("1.0" if fconst(x) == 1.0 else "div" for x in poss if isinstance(x, T))
+        chk.check(ok and (forms == {"1.0", "div"} or forms == {"div"}), key,
+                  "the frame position handed to the mixer is not min((frame_clocks + clk) / clocks_frame, 1.0): %s" % [tm.show(x) if isinstance(x, T) else x for x in poss][:4])
     chk.floor("beeper-rows", 4)
     chk.sample({"samples_per_frame": "sample_rate / 50", "push_sites": sorted(push_fns)})
     # the resampler's phase stays in [0,1): a necessary condition of 'every sample is finite and bounded'
